@@ -37,7 +37,7 @@ func init() {
 				return 1_500_000
 			}, Run: c06Arc,
 				Min: map[string]int64{"arcs": 100000, "relative": 20000, "absolute": 20000, "scaled_up_radii": 10000, "large_arc": 20000, "sweep_positive": 20000, "sweep_negative": 20000,
-					"zero_radius": 5000, "exact_semicircles": 2000, "exact_quarter_circles": 2000, "reset_before_setrasterizer": 50000, "rectangle_changed_after_reset": 50000, "renderer_used_for_an_earlier_graphic": 50000, "lattice_mode": 20000, "lattice_endpoint_equals_pen_pixels": 5000, "cubics_1": 1000, "cubics_2": 1000, "cubics_3": 1000, "cubics_4": 1000, "negative_radius": 5000, "through_destination_logger": 50000, "last_arc_of_an_encoded_run": 100000, "encoded_run_position_above_16": 30000}},
+					"zero_radius": 5000, "exact_semicircles": 2000, "exact_quarter_circles": 2000, "reset_before_setrasterizer": 50000, "rectangle_changed_after_reset": 50000, "renderer_used_for_an_earlier_graphic": 50000, "lattice_mode": 20000, "lattice_endpoint_equals_pen_pixels": 5000, "cubics_1": 1000, "cubics_2": 1000, "cubics_3": 1000, "cubics_4": 1000, "negative_radius": 5000, "through_destination_logger": 50000, "last_arc_of_an_encoded_run": 100000, "encoded_run_position_above_16": 30000, "arc_directly_after_other_arcs": 100000, "degenerate_arc_before_the_arc": 50000}},
 		},
 	})
 }
@@ -219,11 +219,22 @@ func c06Arc(c *run.Ctx, idx uint64) {
 		if runPos > 16 {
 			c.Count("encoded_run_position_above_16", 1)
 		}
+	} else if r.Chance(1, 5) {
+		// also by direct calls the arc may directly follow other arcs, some of them
+		// degenerate (a zero radius: a straight line)
+		runPos = r.Range(2, 4)
+		c.Count("arc_directly_after_other_arcs", 1)
+	}
+	{
 		for i := 1; i < runPos; i++ {
 			d := rec.Op{K: rec.KAbsArcTo, LargeArc: r.Bool(), Sweep: r.Bool(), F: [6]float32{q(float32(r.Uniform(1, 30))), q(float32(r.Uniform(1, 30))), float32(r.Intn(64)) / 64, q(float32(r.Uniform(-60, 60))), q(float32(r.Uniform(-60, 60)))}} // rotations in 1/64 turns survive the zero-to-one forms exactly (DESIGN 6.4)
 			if rel {
 				d.K = rec.KRelArcTo
 				d.F[3], d.F[4] = q(float32(r.Uniform(-15, 15))), q(float32(r.Uniform(-15, 15)))
+			}
+			if r.Chance(1, 4) {
+				d.F[r.Intn(2)] = 0 // a degenerate arc among them
+				c.Count("degenerate_arc_before_the_arc", 1)
 			}
 			pre = append(pre, d)
 		}
